@@ -15,7 +15,7 @@ def main (args : List String) : IO UInt32 := do
   let stdin ← IO.getStdin
   let stdout ← IO.getStdout
   match args with
-  | ["bs"] => loop stdin stdout Driver.Bs.step ([] : ActixNet.ByteString.Store); return 0
+  | ["bs"] => loop stdin stdout Driver.Bs.step Driver.Bs.init; return 0
   | ["codec"] => loop stdin stdout Driver.Codec.step Driver.Codec.init; return 0
   | ["svc"] => loop stdin stdout Driver.Svc.step Driver.Svc.init; return 0
   | ["local"] => loop stdin stdout Driver.Local.step Driver.Local.init; return 0
